@@ -81,7 +81,7 @@ func runC05(c *Ctx) {
 		depth = 4
 	}
 	c.Exhaustive = true
-	c.Rule = fmt.Sprintf("all histories of depth <= %d over 22 grouping-policy calls (single, batch, Ex, update, batch update, filtered removal, ClearPolicy, LoadPolicy, SavePolicy) on a 3-name universe, for the plain manager, the domain manager (2 domains) and two role definitions (g, g2), with an auto-saving adapter; after every call HasLink over the whole universe, GetRoles, GetUsers and the listed grouping rules are compared with the Lean model and with reachability through the listed rules (spec); plus seeded random histories incl. over-long rules; non-trivial = some call changed the graph and some call was refused; distinct = whole history", depth)
+	c.Rule = fmt.Sprintf("all histories of depth <= %d over 22 grouping-policy calls (single, batch, Ex, update, batch update, filtered removal, ClearPolicy, LoadPolicy, SavePolicy) on a 3-name universe, for the plain manager, the domain manager (2 domains) and two role definitions (g, g2), with an auto-saving adapter; after every call HasLink over the whole universe, GetRoles, GetUsers and the listed grouping rules are compared with the Lean model and with reachability through the listed rules (spec); all histories of the same depth over 8 batch calls on a conditional role definition (g = _, _, (_, _); implementation only: live vs rebuilt from the listed rules); plus seeded random histories incl. over-long rules; non-trivial = some call changed the graph and some call was refused; distinct = whole history", depth)
 	names := []string{"a", "b", "c"}
 	// plain manager
 	L := [][]string{{"a", "b"}, {"b", "c"}, {"c", "a"}, {"a", "c"}}
@@ -155,6 +155,8 @@ func runC05(c *Ctx) {
 			c.Count("rejected_reload_mirror_checks", 1)
 		}
 	}
+	// conditional role managers (not modelled): the maintained graph decides like one rebuilt from the listed rules
+	condFamily(c, depth, "after grouping-policy calls on a conditional role definition the live enforcer decides differently from one rebuilt from the listed rules")
 	// random: longer histories, over-long rules (truncated to the definition's arity by casbin)
 	n := 60
 	if c.Thorough() {
